@@ -28,7 +28,8 @@ is an option that changes neither the state nor the control state.
 namespace Logrange.TIndexProg
 open Logrange.TIndexLts
 
-/-- where `deleteJournal` stands: before `LockExclusively`; locked, before `Delete`; before the (last) `UnlockExclusively` -/
+/-- where `deleteJournal` stands: before `LockExclusively`; locked (after `j.Sync()` and the size test — neither is a
+critical section of the tag index), before `Delete`; before the (last) `UnlockExclusively` -/
 inductive DjPh | lock | delete | unlock
 deriving DecidableEq, Repr
 
